@@ -1,6 +1,7 @@
 package main
 
 import (
+	"context"
 	"encoding/binary"
 	"fmt"
 	"runtime"
@@ -58,10 +59,13 @@ type scenarioSpec struct {
 	// application calls SendAndClear (many frames, one flush).  PostBig: once a send has failed, every
 	// further pack makes a frame of that length (larger than the write buffer: the frame after a write
 	// timeout must not be glued onto the connection that carries the fragment).
-	Sizes   []int  `json:"sizes,omitempty"`
-	Batch   bool   `json:"batch,omitempty"`
-	PostBig int    `json:"post_big,omitempty"`
-	Seed    uint64 `json:"seed"`
+	Sizes   []int `json:"sizes,omitempty"`
+	Batch   bool  `json:"batch,omitempty"`
+	PostBig int   `json:"post_big,omitempty"`
+	// Servers: the client's server list by kind of entry (serverlist.go): exactly one "live" (the scripted
+	// collector stand-in), before it "refused" / "gone" entries, behind it also "spare".  Empty: [live].
+	Servers []string `json:"servers,omitempty"`
+	Seed    uint64   `json:"seed"`
 }
 
 type observation struct {
@@ -79,6 +83,15 @@ type observation struct {
 	// cancelled, within the (patient) deadline: the client blocks for ever
 	Stuck  string `json:"stuck,omitempty"`
 	WallMs int64  `json:"wall_ms"`
+	// the public Flush() right after a successful SendAndClear: how often it had nothing to flush / something
+	FlushEmpty int64 `json:"public_flush_nothing_left,omitempty"`
+	FlushOther int64 `json:"public_flush_something_left,omitempty"`
+	// how process() was stopped: "WithContext cancel" | "Destroy" | "StopForVerif"
+	StoppedBy string `json:"stopped_by,omitempty"`
+	// server-list scenarios: the addresses given to the client (in list order) and how many connections
+	// the spare collectors accepted
+	Addrs         []string `json:"server_addrs,omitempty"`
+	SpareAccepted int      `json:"spare_accepted,omitempty"`
 }
 
 type capEvent struct {
@@ -103,6 +116,8 @@ type scen struct {
 	gated int32
 
 	failedAny int32 // a send of this scenario has reported an error
+
+	flushEmpty, flushOther int64 // public Flush() after a successful SendAndClear: (0, nil) / anything else
 
 	lastMade int64 // unix nanos of the consumer's last progress (queue mode)
 	callMu   sync.Mutex
@@ -336,6 +351,22 @@ func (sc *scen) waitArrived(frame []byte, d time.Duration) bool {
 
 func runScenario(spec scenarioSpec) *observation { return runScenarioWatch(spec, nil) }
 
+var destroyMu sync.Mutex
+
+// liveDialFailures: failed dials of the live collector's address since the client last connected.
+func liveDialFailures(log []logEvent, liveAddr string) int {
+	n := 0
+	for _, e := range log {
+		switch {
+		case e.Kind == "connected":
+			n = 0
+		case e.Kind == "fail" && strings.Trim(e.Host, `"`) == liveAddr:
+			n++
+		}
+	}
+	return n
+}
+
 // runScenarioWatch: hung (may be nil) receives a description when a call into the client does not return.
 func runScenarioWatch(spec scenarioSpec, hung chan string) *observation {
 	t0 := time.Now()
@@ -366,8 +397,39 @@ func runScenarioWatch(spec scenarioSpec, hung chan string) *observation {
 	srv.wg.Add(1)
 	go srv.run()
 
-	opts := []oneway.OneWayTcpClientOption{oneway.WithServers([]string{srv.addr}), oneway.WithLicense(defaultLicense),
+	servers := []string{srv.addr}
+	var eps []*endpoint
+	if len(spec.Servers) > 0 {
+		var err error
+		servers, eps, err = buildServerList(spec.Servers, srv.addr)
+		if err != nil {
+			srv.shutdown()
+			obs.Infra = err.Error()
+			return obs
+		}
+		obs.Addrs = servers
+		defer func() {
+			for _, e := range eps {
+				e.close()
+			}
+		}()
+	}
+	opts := []oneway.OneWayTcpClientOption{oneway.WithServers(servers), oneway.WithLicense(defaultLicense),
 		oneway.WithPcode(4711), oneway.WithOid(99), oneway.WithLogger(lg)}
+	if spec.ApplyConfigs > 0 {
+		// the other way to say where the collector is: WithWhatapTcpServer(NewWhatapTcpServerInfo(…)) — license,
+		// hosts (through GetWhatapHosts: always port 6600), project code and object id in one option
+		host := srv.addr[:strings.LastIndex(srv.addr, ":")]
+		opts = []oneway.OneWayTcpClientOption{oneway.WithWhatapTcpServer(wnet.NewWhatapTcpServerInfo(defaultLicense, host, "6600", "4711", "verif-c06")), oneway.WithLogger(lg)}
+	}
+	// every second scenario hands the client a context of its own (WithContext) and stops process() by
+	// cancelling it; one scenario per process stops it through Destroy()
+	var ownCancel context.CancelFunc
+	if spec.Seed%2 == 0 {
+		ctx, cancel := context.WithCancel(context.Background())
+		ownCancel = cancel
+		opts = append(opts, oneway.WithContext(ctx, cancel))
+	}
 	if spec.Mode == "queue" {
 		opts = append(opts, oneway.WithUseQueue())
 		if spec.QueueCap > 0 {
@@ -457,7 +519,23 @@ func runScenarioWatch(spec scenarioSpec, hung chan string) *observation {
 				rec := sc.doSendLen(r, sender, seq, big, target, cyc)
 				if spec.Batch && (cyc == len(spec.Sizes)-1 || len(spec.Sizes) == 0) {
 					id := sc.enter("SendAndClear")
-					vh.Guard(func() { _ = sc.c.SendAndClear() })
+					var sacErr error
+					out := vh.Guard(func() { sacErr = sc.c.SendAndClear() })
+					if out.OK() && sacErr == nil {
+						// the public Flush() right after it (no process() in these scenarios, one sender: nobody
+						// else touches the writer): nothing is left to flush
+						var n int
+						var ferr error
+						if o2 := vh.Guard(func() { n, ferr = sc.c.Flush() }); !o2.OK() {
+							sc.mu.Lock()
+							sc.pan = append(sc.pan, "Flush(): "+o2.Panic)
+							sc.mu.Unlock()
+						} else if n == 0 && ferr == nil {
+							atomic.AddInt64(&sc.flushEmpty, 1)
+						} else {
+							atomic.AddInt64(&sc.flushOther, 1)
+						}
+					}
 					sc.leave(id)
 				}
 				if spec.IdleMs > 0 {
@@ -555,9 +633,26 @@ func runScenarioWatch(spec scenarioSpec, hung chan string) *observation {
 	}
 	obs.Attempts = attempts
 	// stop the background goroutine first (so that Close below is ordered after its last access)
-	sc.c.StopForVerif()
+	switch {
+	case ownCancel != nil:
+		obs.StoppedBy = "WithContext-cancel"
+		ownCancel()
+	case spec.Seed%7 == 3:
+		// Destroy() also clears the package's singleton variable (without a lock): one call at a time
+		obs.StoppedBy = "Destroy"
+		destroyMu.Lock()
+		_ = sc.c.Destroy()
+		destroyMu.Unlock()
+	default:
+		sc.c.StopForVerif()
+	}
 	select {
 	case <-done:
+		if noProgress && liveDialFailures(lg.snapshot(), srv.addr) >= 2 {
+			// not the machine: the consumer has nothing to write to — the client keeps reporting that it cannot
+			// reach the collector, which is listening (server-list scenarios)
+			noProgress = false
+		}
 		if noProgress {
 			obs.Infra = fmt.Sprintf("process() took no queued pack for %v and then stopped normally: machine too slow for this scenario", stallProgress)
 		}
@@ -602,7 +697,32 @@ func runScenarioWatch(spec scenarioSpec, hung chan string) *observation {
 		obs.Conns = srv.snapshot()
 	}
 	obs.Log = lg.snapshot()
+	for _, e := range eps {
+		obs.SpareAccepted += int(atomic.LoadInt32(&e.accepted))
+	}
+	if len(eps) > 0 && obs.Infra == "" {
+		for _, ev := range obs.Log {
+			host := strings.Trim(ev.Host, `"`)
+			for _, e := range eps {
+				if ev.Kind == "connected" && host == e.addr && (e.kind == "gone" || e.kind == "refused") {
+					obs.Infra = "a server-list entry built to be unreachable (" + e.kind + ") accepted a connection"
+				}
+			}
+		}
+		liveFailedEver := false
+		for _, ev := range obs.Log {
+			if ev.Kind == "fail" && strings.Trim(ev.Host, `"`) == srv.addr {
+				liveFailedEver = true
+			}
+		}
+		if obs.SpareAccepted > 0 && liveFailedEver {
+			// the dial of the live collector was reported failed (its own reset racing the dialer): the client
+			// went on to the spare collector, as it should; what it delivered there is not observed
+			obs.Infra = "the client failed over to the spare collector after a reported dial failure of the live one"
+		}
+	}
 	obs.Panics = sc.pan
+	obs.FlushEmpty, obs.FlushOther = atomic.LoadInt64(&sc.flushEmpty), atomic.LoadInt64(&sc.flushOther)
 	srv.mu.Lock()
 	if srv.infra != "" {
 		obs.Infra = srv.infra
